@@ -257,7 +257,7 @@ func TestEngine(t *testing.T) {
 		return
 	}
 	r := hx.Rand(12)
-	for id := range hx.Cases(1200, 30000) {
+	for id := range hx.Cases(4000, 60000) {
 		runCase(t, tr, id, r, nil)
 	}
 }
